@@ -42,7 +42,9 @@ VARIABLES grp,     \* group id -> [gk, al, due, st, dead, tick, dl, frozen, pl, 
 dvars == <<grp, gmap, nfl, ids, nposts>>
 allvars == <<ovars, dvars>>
 
-TheCfg == [gw |-> GW, gi |-> GI, ri |-> RI, sr |-> SR, inhibit |-> INH, windows |-> Windows]
+IntegName(i) == "webhook/" \o ToString(i - 1)
+TheCfg == [gw |-> GW, gi |-> GI, ri |-> RI, integs |-> [i \in 1..Len(SR) |-> [name |-> IntegName(i), sr |-> SR[i]]],
+           inhibit |-> INH, windows |-> Windows]
 NInt == Len(SR)
 AgName(i) == "ag" \o ToString(i)
 
@@ -63,13 +65,13 @@ Frozen(al, t) ==
               start |-> al[a].start, end |-> IF al[a].end <= t THEN al[a].end ELSE -1, upd |-> al[a].upd]
              : a \in DOMAIN al })
 
-KindAt(i, t) == IF \E w \in SeqToSet(Windows) : w.integ = i - 1 /\ w.from <= t /\ t < w.to
-                  THEN (CHOOSE w \in SeqToSet(Windows) : w.integ = i - 1 /\ w.from <= t /\ t < w.to).kind
+KindAt(i, t) == IF \E w \in SeqToSet(Windows) : w.integ = IntegName(i) /\ w.from <= t /\ t < w.to
+                  THEN (CHOOSE w \in SeqToSet(Windows) : w.integ = IntegName(i) /\ w.from <= t /\ t < w.to).kind
                   ELSE "ok"
 
 Init == /\ now = 0 /\ cfg = TheCfg /\ ver = << >> /\ sil = << >> /\ last = << >> /\ brk = << >> /\ fl = << >>
-        /\ cancd = [seen |-> {}, dead |-> {}, deadgk |-> {}]
-        /\ elig = [p \in Alerts \X (1..NInt) |-> -1] /\ chk = {}
+        /\ cancd = [seen |-> {}, dead |-> << >>, deadgk |-> {}, refl |-> {}]
+        /\ elig = [p \in Alerts \X {IntegName(i) : i \in 1..NInt} |-> -1] /\ chk = {}
         /\ grp = << >> /\ gmap = << >> /\ nfl = << >> /\ ids = 0 /\ nposts = 0
 
 -----------------------------------------------------------------------------
@@ -141,7 +143,7 @@ AttemptStep(id, i) ==
        THEN /\ Other
             /\ grp' = [grp EXCEPT ![id].pc[i].pc = "log"]
        ELSE LET kind == KindAt(i, now)
-            IN /\ Attempt(id, g.gk, IntegName(i), PayloadOf(g, i), kind, g.dl)
+            IN /\ Attempt(id, g.gk, IntegName(i), PayloadOf(g, i), kind, g.dl, now)
                /\ grp' = [grp EXCEPT ![id].pc[i] =
                             CASE kind = "ok"    -> [pc |-> "log", n |-> p.n + 1, next |-> 0]
                               [] kind = "unrec" -> [pc |-> "failed", n |-> p.n + 1, next |-> 0]
